@@ -38,12 +38,25 @@ def run(ctx):
     ctx.scan([b, tw])
     me = ("param", 1, b.debug.get(1, ""))
     inserts = list(b.calls("BTreeSet::<T, A>::insert"))
+    # which sets end up in the returned FundamentalGroup
+    res_sets = {}
+    for bi, si, s in b.assigns():
+        rv = s["rv"]
+        if rv["k"] == "aggregate" and rv.get("agg") == "adt" and rv["adt"].endswith("FundamentalGroup"):
+            for fname, op in zip(rv["fields"], rv["ops"]):
+                t_ = strip(b.def_origin(b.origin(op)))
+                while t_[0] == "call" and t_[2]:
+                    t_ = strip(b.def_origin(t_[2][0]))
+                if t_[0] == "local":
+                    res_sets[t_[1]] = fname
     cone_ins, rel_ins = [], []
     for bi, t in inserts:
         v = norm(b.origin(t["args"][1]), g)
-        if v[0] == "agg" and v[1] == "tuple" and len(v[2]) == 2:
+        recv = strip(b.origin(t["args"][0]))
+        which = res_sets.get(recv[1]) if recv[0] == "local" else None
+        if which == "cones" or (which is None and not res_sets and v[0] == "agg" and v[1] == "tuple" and len(v[2]) == 2):
             cone_ins.append((bi, t, v))
-        else:
+        elif which == "relators" or (which is None and not res_sets):
             rel_ins.append((bi, t, v))
     ctx.floor("cone insertions", len(cone_ins), 1)
     ctx.floor("relator insertions", len(rel_ins), 1)
@@ -53,6 +66,8 @@ def run(ctx):
 
     for bi, t in b.calls(exact="fundamental_group::trace_word"):
         every_iteration_reaches(ctx, "T3-no-skipped-orbit", b, bi, "orbit-loop->trace_word", "some 2-orbit representative is skipped: its relator / cone is missing")
+    for bi, t in b.calls(exact="fpgroups::free_words::FreeWord::raised_to"):
+        every_iteration_reaches(ctx, "T3-no-skipped-orbit", b, bi, "orbit-loop->word.raised_to(v)", "some 2-orbit representative is skipped before its relator word^v is formed: relators / cones of orbits can be dropped")
     for bi, t in b.calls(exact="dsets::DSet::orbit_reps_2d"):
         every_iteration_reaches(ctx, "T3-no-skipped-orbit", b, bi, "index-loop->orbit_reps_2d", "some index pair is skipped: its relators are missing")
     # (3) relators
